@@ -51,6 +51,10 @@ func (n *Nodis) ZAddNX(key string, member string, score float64) int64 {
 		meta := tx.writeKey(key, n.newZSet)
 		v = meta.value.(*zset.SortedSet).ZAddNX(member, score)
 		n.signalModifiedKey(key, meta)
+		if v == 0 {
+			// the member exists and keeps its score: a ZADD record would overwrite it on a replica
+			return nil
+		}
 		n.notify(func() []patch.Op {
 			return []patch.Op{{Type: patch.OpTypeZAdd, Data: &patch.OpZAdd{Key: key, Member: member, Score: score}}}
 		})
